@@ -23,7 +23,8 @@ TInit == /\ TKInit /\ tid \in 1..NLogs /\ l = 1 /\ Init /\ headSince = 0 /\ pend
 
 \* the head of the queue never waits longer than one poll (the consumer is alive and takes
 \* one reply per wake-up)
-HeadOk(t) == queue = <<>> \/ t - headSince <= Poll + Eps + Log.hd
+\* Log.late: the largest lateness of a loop wake-up in this run (a loaded host), 0 for an exact loop
+HeadOk(t) == queue = <<>> \/ t - headSince <= Poll + Eps + Log.hd + Log.late
 At(t) == t >= now /\ HeadOk(t) /\ now' = t
 
 TArrive == /\ More /\ E.k = "arrive" /\ pending = "" /\ At(E.t)
@@ -46,10 +47,10 @@ TDisc == /\ More /\ E.k = "disc" /\ pending = E.spa /\ E.t = now
 TRet == /\ More /\ E.k = "ret" /\ pending = "" /\ E.t >= now /\ HeadOk(E.t)
         /\ E.spas = spas                                        \* listed = discovered, in order, once each
         /\ E.closed /\ E.loctasks = 0
-        /\ IF spas = <<>> THEN E.t >= Timeout /\ E.t <= Timeout + Poll + Eps
-           ELSE IF Filtered THEN E.t <= consumedAt[spas[1]] + Log.hd + Poll + Eps   \* has_found_spa is set after the client handler returns
+        /\ IF spas = <<>> THEN E.t >= Timeout /\ E.t <= Timeout + Poll + Eps + Log.late
+           ELSE IF Filtered THEN E.t <= consumedAt[spas[1]] + Log.hd + Poll + Eps + Log.late   \* has_found_spa is set after the client handler returns
            ELSE LET t1 == consumedAt[spas[1]]  base == IF t1 > Initial THEN t1 ELSE Initial IN
-                E.t > Initial - Eps /\ E.t <= base + Poll + Eps
+                E.t > Initial - Eps /\ E.t <= base + Poll + Eps + Log.late
         /\ phase' = "done" /\ ret' = E.t /\ now' = E.t
         /\ UNCHANGED <<queue, seen, spas, found, nextC, nextD, arrivals, consumedAt, headSince, pending>> /\ Step
 
